@@ -167,7 +167,7 @@ func (ss *sessionStruct) Unmarshal(b []byte) error {
 	}
 	originalTimestamp := binary.BigEndian.Uint32(b[2:])
 	currentTimestamp := uint32(time.Now().Unix() / 60)
-	if !mathext.WithinRange(currentTimestamp, originalTimestamp, 1) {
+	if !mathext.WithinRange(int64(currentTimestamp), int64(originalTimestamp), 1) {
 		return fmt.Errorf("invalid timestamp %d", originalTimestamp*60)
 	}
 	payloadLen := binary.BigEndian.Uint16(b[15:])
@@ -257,7 +257,7 @@ func (das *dataAckStruct) Unmarshal(b []byte) error {
 	}
 	originalTimestamp := binary.BigEndian.Uint32(b[2:])
 	currentTimestamp := uint32(time.Now().Unix() / 60)
-	if !mathext.WithinRange(currentTimestamp, originalTimestamp, 1) {
+	if !mathext.WithinRange(int64(currentTimestamp), int64(originalTimestamp), 1) {
 		return fmt.Errorf("invalid timestamp %d", originalTimestamp*60)
 	}
 
